@@ -128,7 +128,7 @@ type ContractFile struct {
 var clauseKeywords = map[string]bool{
 	"requires": true, "ensures": true, "let": true, "postlet": true, "modifies": true, "loop": true, "dyn": true,
 	"props": true, "flags": true, "cover": true, "nullable": true,
-	"assume": true, "show": true, "call": true, "havoc": true, "fresh": true,
+	"assume": true, "show": true, "call": true, "havoc": true, "fresh": true, "set": true,
 }
 
 var topKeywords = map[string]bool{
@@ -522,6 +522,16 @@ func parseLemmaStep(l *Lemma, kw, rest string) error {
 		for _, n := range splitNames(rest) {
 			l.Steps = append(l.Steps, LemmaStep{Kind: "havoc", Name: n})
 		}
+	case "set":
+		parts := strings.SplitN(rest, "=", 2)
+		if len(parts) != 2 {
+			return fmt.Errorf("set ghost = expr")
+		}
+		e, err := ParseExpr(parts[1])
+		if err != nil {
+			return err
+		}
+		l.Steps = append(l.Steps, LemmaStep{Kind: "set", Name: strings.TrimSpace(parts[0]), E: e})
 	case "call":
 		// call r1, r2 = (Keeper).RecvPacket(a, b, c)   [callee given as pkgalias:(T).M or (T).M in lemma's pkg]
 		st := LemmaStep{Kind: "call"}
